@@ -59,6 +59,8 @@ def compute_domains_affine_leq(domains: NDArray, parameters: NDArray) -> int:
     :param parameters: the parameters of the propagator, a is an alias for parameters
     :return: the status of the propagation (consistency, inconsistency or entailment) as an int
     """
+    # products and sums of 32-bit coefficients and bounds need 64 bits (numpy scalars do not promote, unlike numba)
+    parameters = parameters.astype(np.int64)
     domain_sum_min = domain_sum_max = parameters[-1]
     for i, c in enumerate(parameters[:-1]):
         if c > 0:
